@@ -1022,6 +1022,10 @@ func (e *Exec) step(st *State, fr *Frame, in ssa.Instruction) string {
 		}
 		e.monitorStore(st, &Ptr{Obj: m.Obj}, fr, in)
 		e.recAccess(st, &Ptr{Obj: m.Obj}, true, fr, in)
+		if alts := e.mapUpdateAlts(st, m, k, v); alts != nil {
+			e.forkAlts(st, alts, st.Forks)
+			return ""
+		}
 		e.mapUpdate(st, m, k, v)
 		fr.idx++
 	case *ssa.Send:
@@ -1655,6 +1659,50 @@ func (e *Exec) keyEq(a, b Value) *sym.Term {
 	return e.valuesEqual(a, b)
 }
 
+// mapUpdateAlts: an update whose key may or may not equal existing keys forks into one alternative per
+// possibly-equal entry plus one for a new entry. nil when the plain update decides.
+func (e *Exec) mapUpdateAlts(st *State, m *MapRef, k, v Value) []Alt {
+	mv := st.heap[m.Obj].V.(*MapV)
+	symbolic := false
+	for _, kk := range mv.K {
+		eq := e.keyEq(kk, k)
+		if eq.IsTrue() {
+			return nil
+		}
+		if !eq.IsFalse() {
+			symbolic = true
+		}
+	}
+	if !symbolic {
+		return nil
+	}
+	var alts []Alt
+	var none []*sym.Term
+	for i, kk := range mv.K {
+		i := i
+		eq := e.keyEq(kk, k)
+		if eq.IsFalse() {
+			continue
+		}
+		none = append(none, e.C.Not(eq))
+		alts = append(alts, Alt{Cond: eq, Tag: fmt.Sprintf("mapkey=%d", i), Apply: func(s *State) {
+			cur := s.heap[m.Obj].V.(*MapV)
+			nv := append([]Value{}, cur.V...)
+			nv[i] = v
+			s.setObj(m.Obj, &MapV{K: cur.K, V: nv})
+			s.top().idx++
+		}})
+	}
+	alts = append(alts, Alt{Cond: e.C.And(none...), Tag: "mapkey=new", Apply: func(s *State) {
+		cur := s.heap[m.Obj].V.(*MapV)
+		nk := append(append([]Value{}, cur.K...), k)
+		nv := append(append([]Value{}, cur.V...), v)
+		s.setObj(m.Obj, &MapV{K: nk, V: nv})
+		s.top().idx++
+	}})
+	return alts
+}
+
 func (e *Exec) mapUpdate(st *State, m *MapRef, k, v Value) {
 	mv := st.heap[m.Obj].V.(*MapV)
 	for i, kk := range mv.K {
@@ -1668,9 +1716,6 @@ func (e *Exec) mapUpdate(st *State, m *MapRef, k, v Value) {
 		if !eq.IsFalse() {
 			unsupportedf("map update with symbolic key")
 		}
-	}
-	if s, ok := k.(*Str); ok && !s.IsConc && len(mv.K) > 0 {
-		unsupportedf("map update with symbolic key")
 	}
 	nk := append(append([]Value{}, mv.K...), k)
 	nv := append(append([]Value{}, mv.V...), v)
